@@ -243,6 +243,11 @@ def contains(it, container, x):
             return _any_eq(it, x, cand)
         return _any_eq(it, x, list(container))
     if isinstance(container, range):
+        if isinstance(x, SFloat) and container.step == 1 and it.float_mode == "real":
+            # a float is in a range iff it is integral and within the bounds
+            return mk_bool(And(z3.IsInt(x.t), x.t >= container.start, x.t < container.stop))
+        if isinstance(x, SFloat):
+            raise Unsupported("float in range (fp mode / step)")
         if isinstance(x, SInt):
             t = And(x.t >= container.start, x.t < container.stop) if container.step == 1 else None
             if t is None:
